@@ -4,12 +4,18 @@ theories/Base/Json.vos theories/Base/Json.vok theories/Base/Json.required_vos: t
 theories/Base/Res.vo theories/Base/Res.glob theories/Base/Res.v.beautified theories/Base/Res.required_vo: theories/Base/Res.v 
 theories/Base/Res.vio: theories/Base/Res.v 
 theories/Base/Res.vos theories/Base/Res.vok theories/Base/Res.required_vos: theories/Base/Res.v 
+theories/Corr/C01.vo theories/Corr/C01.glob theories/Corr/C01.v.beautified theories/Corr/C01.required_vo: theories/Corr/C01.v theories/Base/Json.vo theories/Base/Res.vo theories/Model/Msg.vo theories/Model/Bind.vo theories/Model/Dispatch.vo theories/Corr/DispCommon.vo
+theories/Corr/C01.vio: theories/Corr/C01.v theories/Base/Json.vio theories/Base/Res.vio theories/Model/Msg.vio theories/Model/Bind.vio theories/Model/Dispatch.vio theories/Corr/DispCommon.vio
+theories/Corr/C01.vos theories/Corr/C01.vok theories/Corr/C01.required_vos: theories/Corr/C01.v theories/Base/Json.vos theories/Base/Res.vos theories/Model/Msg.vos theories/Model/Bind.vos theories/Model/Dispatch.vos theories/Corr/DispCommon.vos
 theories/Corr/C05.vo theories/Corr/C05.glob theories/Corr/C05.v.beautified theories/Corr/C05.required_vo: theories/Corr/C05.v theories/Base/Json.vo theories/Base/Res.vo theories/Model/Msg.vo theories/Generated/Consts.vo theories/Corr/C06.vo
 theories/Corr/C05.vio: theories/Corr/C05.v theories/Base/Json.vio theories/Base/Res.vio theories/Model/Msg.vio theories/Generated/Consts.vio theories/Corr/C06.vio
 theories/Corr/C05.vos theories/Corr/C05.vok theories/Corr/C05.required_vos: theories/Corr/C05.v theories/Base/Json.vos theories/Base/Res.vos theories/Model/Msg.vos theories/Generated/Consts.vos theories/Corr/C06.vos
 theories/Corr/C06.vo theories/Corr/C06.glob theories/Corr/C06.v.beautified theories/Corr/C06.required_vo: theories/Corr/C06.v theories/Base/Json.vo theories/Base/Res.vo theories/Model/Msg.vo theories/Generated/Consts.vo
 theories/Corr/C06.vio: theories/Corr/C06.v theories/Base/Json.vio theories/Base/Res.vio theories/Model/Msg.vio theories/Generated/Consts.vio
 theories/Corr/C06.vos theories/Corr/C06.vok theories/Corr/C06.required_vos: theories/Corr/C06.v theories/Base/Json.vos theories/Base/Res.vos theories/Model/Msg.vos theories/Generated/Consts.vos
+theories/Corr/DispCommon.vo theories/Corr/DispCommon.glob theories/Corr/DispCommon.v.beautified theories/Corr/DispCommon.required_vo: theories/Corr/DispCommon.v theories/Base/Json.vo theories/Base/Res.vo theories/Model/Msg.vo theories/Model/Bind.vo theories/Model/Dispatch.vo theories/Generated/Consts.vo
+theories/Corr/DispCommon.vio: theories/Corr/DispCommon.v theories/Base/Json.vio theories/Base/Res.vio theories/Model/Msg.vio theories/Model/Bind.vio theories/Model/Dispatch.vio theories/Generated/Consts.vio
+theories/Corr/DispCommon.vos theories/Corr/DispCommon.vok theories/Corr/DispCommon.required_vos: theories/Corr/DispCommon.v theories/Base/Json.vos theories/Base/Res.vos theories/Model/Msg.vos theories/Model/Bind.vos theories/Model/Dispatch.vos theories/Generated/Consts.vos
 theories/Generated/Consts.vo theories/Generated/Consts.glob theories/Generated/Consts.v.beautified theories/Generated/Consts.required_vo: theories/Generated/Consts.v theories/Base/Json.vo
 theories/Generated/Consts.vio: theories/Generated/Consts.v theories/Base/Json.vio
 theories/Generated/Consts.vos theories/Generated/Consts.vok theories/Generated/Consts.required_vos: theories/Generated/Consts.v theories/Base/Json.vos
@@ -22,9 +28,18 @@ theories/Lemmas/MsgL.vos theories/Lemmas/MsgL.vok theories/Lemmas/MsgL.required_
 theories/Lemmas/Tactics.vo theories/Lemmas/Tactics.glob theories/Lemmas/Tactics.v.beautified theories/Lemmas/Tactics.required_vo: theories/Lemmas/Tactics.v theories/Base/Json.vo theories/Base/Res.vo
 theories/Lemmas/Tactics.vio: theories/Lemmas/Tactics.v theories/Base/Json.vio theories/Base/Res.vio
 theories/Lemmas/Tactics.vos theories/Lemmas/Tactics.vok theories/Lemmas/Tactics.required_vos: theories/Lemmas/Tactics.v theories/Base/Json.vos theories/Base/Res.vos
+theories/Model/Bind.vo theories/Model/Bind.glob theories/Model/Bind.v.beautified theories/Model/Bind.required_vo: theories/Model/Bind.v theories/Base/Json.vo theories/Base/Res.vo
+theories/Model/Bind.vio: theories/Model/Bind.v theories/Base/Json.vio theories/Base/Res.vio
+theories/Model/Bind.vos theories/Model/Bind.vok theories/Model/Bind.required_vos: theories/Model/Bind.v theories/Base/Json.vos theories/Base/Res.vos
+theories/Model/Dispatch.vo theories/Model/Dispatch.glob theories/Model/Dispatch.v.beautified theories/Model/Dispatch.required_vo: theories/Model/Dispatch.v theories/Base/Json.vo theories/Base/Res.vo theories/Model/Msg.vo theories/Model/Bind.vo theories/Generated/Consts.vo
+theories/Model/Dispatch.vio: theories/Model/Dispatch.v theories/Base/Json.vio theories/Base/Res.vio theories/Model/Msg.vio theories/Model/Bind.vio theories/Generated/Consts.vio
+theories/Model/Dispatch.vos theories/Model/Dispatch.vok theories/Model/Dispatch.required_vos: theories/Model/Dispatch.v theories/Base/Json.vos theories/Base/Res.vos theories/Model/Msg.vos theories/Model/Bind.vos theories/Generated/Consts.vos
 theories/Model/Msg.vo theories/Model/Msg.glob theories/Model/Msg.v.beautified theories/Model/Msg.required_vo: theories/Model/Msg.v theories/Base/Json.vo theories/Base/Res.vo
 theories/Model/Msg.vio: theories/Model/Msg.v theories/Base/Json.vio theories/Base/Res.vio
 theories/Model/Msg.vos theories/Model/Msg.vok theories/Model/Msg.required_vos: theories/Model/Msg.v theories/Base/Json.vos theories/Base/Res.vos
+theories/Props/C01.vo theories/Props/C01.glob theories/Props/C01.v.beautified theories/Props/C01.required_vo: theories/Props/C01.v theories/Model/Dispatch.vo
+theories/Props/C01.vio: theories/Props/C01.v theories/Model/Dispatch.vio
+theories/Props/C01.vos theories/Props/C01.vok theories/Props/C01.required_vos: theories/Props/C01.v theories/Model/Dispatch.vos
 theories/Props/C05.vo theories/Props/C05.glob theories/Props/C05.v.beautified theories/Props/C05.required_vo: theories/Props/C05.v theories/Base/Json.vo theories/Base/Res.vo theories/Model/Msg.vo theories/Generated/Consts.vo theories/Lemmas/MsgL.vo theories/Lemmas/ConstsSpec.vo
 theories/Props/C05.vio: theories/Props/C05.v theories/Base/Json.vio theories/Base/Res.vio theories/Model/Msg.vio theories/Generated/Consts.vio theories/Lemmas/MsgL.vio theories/Lemmas/ConstsSpec.vio
 theories/Props/C05.vos theories/Props/C05.vok theories/Props/C05.required_vos: theories/Props/C05.v theories/Base/Json.vos theories/Base/Res.vos theories/Model/Msg.vos theories/Generated/Consts.vos theories/Lemmas/MsgL.vos theories/Lemmas/ConstsSpec.vos
